@@ -109,6 +109,17 @@ def solve_case(ctx, rng):
     act = sorted(rng.sample(range(n), rng.randint(1, n)))
     M = np.array([[rng.uniform(-1, 1) for _ in act] for _ in act])
     Ared = M @ M.T + len(act) * np.eye(len(act))
+    kind = rng.choice(['spd', 'spd', 'chain', 'saddle']) if len(act) >= 3 else 'spd'
+    if kind == 'chain':
+        # spring chain k*tridiag(-1, 2, -1): positive definite, interior columns sum EXACTLY to zero
+        k_ = rng.choice([1., 2., 1000.])
+        Ared = k_ * (2 * np.eye(len(act)) - np.eye(len(act), k=1) - np.eye(len(act), k=-1))
+    elif kind == 'saddle':
+        # Lagrange-multiplier border [[K, G^T], [G, 0]]: non-singular, an active amplitude with ZERO diagonal entry
+        nk = len(act) - 1
+        Kb = M[:nk, :nk] @ M[:nk, :nk].T + nk * np.eye(nk)
+        G = np.array([[rng.choice([1., -1.]) * rng.uniform(0.5, 1.5) for _ in range(nk)]])
+        Ared = np.block([[Kb, G.T], [G, np.zeros((1, 1))]])
     A = np.zeros((n, n))
     A[np.ix_(act, act)] = Ared
     b = np.array([rng.uniform(-1, 1) for _ in range(n)])
@@ -202,6 +213,65 @@ def bay_case(ctx, rng):
     return None, None, None
 
 
+def stiffened_bay_case(ctx, rng):
+    """bay with 0-2 stiffeners of each kind (generator of the C13 check), point forces on skin / flanges / bases of a random
+    subset of the stiffeners (e.g. only on the SECOND 2-D stiffener): fext . c = virtual work of every force against the
+    displacement of ITS component evaluated with that component's own slice of c"""
+    from tools.props import C13
+    case = C13.gen_bay(rng)
+    # make loaded / unloaded stiffeners alternate at random
+    for s_ in case['stiffs']:
+        if s_['type'] in ('b2', 't') and s_['flange']:
+            s_['forces_flange'] = ([[rng.uniform(0, case['a']), rng.uniform(0, s_['bf']), rng.uniform(-1, 1), 0., rng.uniform(-1, 1)]]
+                                   if rng.random() < 0.5 else [])
+        if s_['type'] == 't':
+            s_['forces_base'] = ([[rng.uniform(0, case['a']), rng.uniform(0, s_['bb']), 0., rng.uniform(-1, 1), rng.uniform(-1, 1)]]
+                                 if rng.random() < 0.5 else [])
+    case['forces_skin'] = [[rng.uniform(0, case['a']), rng.uniform(0, case['b']), rng.uniform(-1, 1), rng.uniform(-1, 1), 1.]] \
+        if rng.random() < 0.5 else []
+    desc = dict(kind='stiffened bay', stiffs=[(s_['type'], bool(s_['forces_flange']), bool(s_['forces_base'])) for s_ in case['stiffs']],
+                skin=bool(case['forces_skin']))
+    try:
+        bay, objs = C13.build_bay(case)
+        pc.quiet(bay.calc_k0, silent=True)
+        fext = np.array(pc.quiet(bay.calc_fext, silent=True))
+        ranges = C13.bay_ranges(case, bay)
+    except Exception as e:
+        return desc, None      # construction problems are the business of C13 / C20
+    size = sum(sz for _, sz in ranges)
+    if fext.shape != (size,):
+        return desc, 'bay fext has shape %r, the component sizes add up to %d' % (fext.shape, size)
+    c = np.random.RandomState(size).uniform(-1, 1, size)
+    start = {}
+    off = 0
+    for key, sz in ranges:
+        start[key] = (off, off + sz)
+        off += sz
+    work = 0.
+
+    def add(panel, sl, forces):
+        w_ = 0.
+        cl = np.ascontiguousarray(c[sl[0]:sl[1]])
+        for (x, y, fx, fy, fz) in forces:
+            u, v, w, _, _ = panel.uvw(cl, xs=np.array([x]), ys=np.array([y]))
+            w_ += fx * float(np.ravel(u)[0]) + fy * float(np.ravel(v)[0]) + fz * float(np.ravel(w)[0])
+        return w_
+    try:
+        work += add(bay.panels[0], start['skin'], bay.forces_skin)
+        for s_ in bay.bladestiff2ds:
+            if s_.flange is not None:
+                work += add(s_.flange, start[('b2f', id(s_))], s_.flange.forces)
+        for s_ in bay.tstiff2ds:
+            work += add(s_.base, start[('tb', id(s_))], s_.base.forces)
+            work += add(s_.flange, start[('tf', id(s_))], s_.flange.forces)
+    except Exception:
+        return desc, None
+    if abs(float(fext @ c) - work) > 1e-9 * (np.abs(fext).sum() + 1e-300):
+        return desc, 'stiffened bay: fext.c = %.9e differs from the virtual work %.9e of the forces on skin, flanges and bases' \
+            % (float(fext @ c), work)
+    return desc, None
+
+
 def correspondence(ctx):
     translate(ctx)
     rng = ctx.rng
@@ -260,6 +330,15 @@ def correspondence(ctx):
         ctx.evaluations += 1
         if bad and ctx.violation('C07 fails on the implementation: ' + bad, dict(case=c, derived='bay'), identity=ident):
             return
+    nb = 0
+    for t in range(ctx.scale(25, 200)):
+        c, bad = stiffened_bay_case(ctx, rng)
+        ctx.evaluations += 1
+        nb += sum(1 for x in c.get('stiffs', []) if x[1] or x[2]) >= 1
+        if bad:
+            ctx.violation('C07 fails on the implementation: ' + bad, dict(case=c, derived='stiffened bay'))
+            return
+    dist['stiffened_bays_with_loaded_stiffeners'] = nb
     ctx.cov['input_distribution'] = dist
 
 
